@@ -122,6 +122,40 @@ func main() {
 		deleteStops := variant("DeleteForServerNames")
 		aliasStops := variant("AddOrUpdateForServerNames")
 
+		// the loops over the server names visit EVERY name: a name that does not (any longer) resolve to the cluster is
+		// skipped, it does not end the loop (no return / break / goto inside a range body)
+		visitsAll := func(fn string) bool {
+			fd := must(lib.FuncDecl(ctrl, "UpstreamClusterController", fn), fCtrl, fn)
+			loops, all := 0, true
+			ast.Inspect(fd.Body, func(x ast.Node) bool {
+				rs, ok := x.(*ast.RangeStmt)
+				if !ok {
+					return true
+				}
+				loops++
+				ast.Inspect(rs.Body, func(y ast.Node) bool {
+					switch t := y.(type) {
+					case *ast.FuncLit:
+						return false
+					case *ast.ReturnStmt:
+						all = false
+					case *ast.BranchStmt:
+						if t.Tok == token.BREAK || t.Tok == token.GOTO {
+							all = false
+						}
+					}
+					return true
+				})
+				return true
+			})
+			if loops == 0 {
+				lib.Fatalf("%s: %s has no loop over the server names", fCtrl, fn)
+			}
+			return all
+		}
+		deleteVisitsAll := visitsAll("DeleteForServerNames")
+		updateVisitsAll := visitsAll("AddOrUpdateForServerNames")
+
 		// 3. manager: DeleteWithStop -> doDelete(name, true) -> cluster.Stop(); Delete -> doDelete(name, false); Stop -> c.cancel()
 		flag := func(fn string) bool {
 			fd := must(lib.FuncDecl(mgr, "manager", fn), fMgr, fn)
@@ -364,6 +398,8 @@ func main() {
 		}
 		w("deleteForServerNamesStops", deleteStops && withStopStops || !deleteStops && plainStops,
 			fCtrl+": DeleteForServerNames removes the names with the manager's stopping delete (DeleteWithStop -> doDelete(name, true) -> cluster.Stop() -> c.cancel())")
+		w("deleteLoopVisitsEveryName", deleteVisitsAll, fCtrl+": the loop of DeleteForServerNames skips a name that does not resolve to the cluster and goes on (no return / break in the loop body)")
+		w("updateLoopsVisitEveryName", updateVisitsAll, fCtrl+": the loops of AddOrUpdateForServerNames visit every old / new name (no return / break in a loop body)")
 		w("aliasDropStops", aliasStops && withStopStops || !aliasStops && plainStops,
 			fCtrl+": AddOrUpdateForServerNames removes an old server name with a stopping delete")
 		w("endpointCtxChildOfCluster", epChild, fCI+": addOrUpdateEndpoint derives the endpoint context from the cluster context")
